@@ -52,7 +52,7 @@ func MembersFor(member string) []string {
 	}
 	var out []string
 	for _, n := range AllNames {
-		if n == "pacing" || n == "cc-leaky-bucket" || n == "jitterbuffer" {
+		if n == "pacing" || n == "cc-leaky-bucket" || n == "cc-user-pacer" || n == "jitterbuffer" {
 			continue
 		}
 		out = append(out, n)
